@@ -1,6 +1,6 @@
 SPECIFICATION Spec
 CONSTANTS
-  FileNames = {"x.npy", "x.NPY", "x.sfs", "x.txt", "x", "x.npy.txt", "x.text.npy", "x.tsv"}
+  FileNames = {"x.npy", "x.NPY", "x.sfs", "x.txt", "x", "x.npy.txt", "x.text.npy", "x.tsv", "-"}
   MaxSteps = 2
   AB_LowercaseHeader = FALSE
   Precisions = {0, 6, 17}
